@@ -9,7 +9,7 @@
    writer that answers a failed rename by copying over the target: see the `_refuted` theorems. *)
 From Coq Require Import List String NArith Bool.
 Import ListNotations.
-From IT Require Import Fs.Crash Fs.CrashThm Fs.TwoWriters.
+From IT Require Import Fs.Crash Fs.CrashThm Fs.TwoWriters Fs.Caller.
 
 (* all-or-nothing for every writer program that passes the decidable premise, against every fault sequence *)
 Theorem C17_atomic : forall w, wf_writer w = true ->
@@ -126,6 +126,27 @@ Theorem C17_two_writers_shared_not_atomic :
        d' p = Some old \/ d' p = Some newA \/ d' p = Some newB).
 Proof. exact two_writers_shared_not_atomic. Qed.
 
+(* ---- the code around the writer (Fs/Caller.v): the guarantee is about ONE call with the whole new content ---- *)
+(* whatever sequence of contents a caller hands to a correct writer, under any fault sequences, the target holds the
+   previous content or one of the contents handed over *)
+Theorem C17_caller_some_content : forall w, wf_writer w = true ->
+  forall (p tmp : path) (cs : list (content * list fault)) (old : content) (d : disk),
+    tmp <> p -> d p = Some old ->
+    exists c, In c (old :: map fst cs) /\ calls w p tmp cs d p = Some c.
+Proof. exact calls_some_content. Qed.
+
+(* a caller that calls the writer once (what `edit_write` does) is all-or-nothing *)
+Theorem C17_caller_single_call : forall w, wf_writer w = true ->
+  forall (p tmp : path) (old new : content) (fs : list fault) (d : disk),
+    tmp <> p -> d p = Some old ->
+    let d' := calls w p tmp [(new, fs)] d in d' p = Some old \/ d' p = Some new.
+Proof. exact single_call_atomic. Qed.
+
+(* a caller that commits in two steps is not, even with the correct writer: the process dies between the steps *)
+Theorem C17_caller_two_step_refuted : forall (old mid new : content), mid <> old -> mid <> new ->
+  ~ all_or_nothing_caller writer_tmp_rename [mid; new].
+Proof. exact two_step_refuted. Qed.
+
 Print Assumptions C17_atomic.
 Print Assumptions C17_atomic_any_environment.
 Print Assumptions C17_tmp_rename_atomic.
@@ -145,3 +166,6 @@ Print Assumptions C17_tmp_pid_differs.
 Print Assumptions C17_two_writers_real_tmp.
 Print Assumptions C17_two_writers_shared_refuted.
 Print Assumptions C17_two_writers_shared_not_atomic.
+Print Assumptions C17_caller_some_content.
+Print Assumptions C17_caller_single_call.
+Print Assumptions C17_caller_two_step_refuted.
